@@ -66,6 +66,8 @@ pub fn ecm(n: &BigInt, conf: ECMConfig) -> (BigInt, u64) {
     debug_assert!(!prime::is_prime(n));
 
     let mut rng = rand::thread_rng();
+    #[cfg(feature = "verif-hooks")]
+    let mut rng = crate::verif_hooks::rng();
 
     let mut count = 0u64;
     let parallel_count = (conf.b1 as f64).sqrt() as usize; // TODO: find better values
@@ -421,5 +423,53 @@ mod tests {
         let n = BigInt::from(1_000_000_007u128 * 1_000_000_007u128);
         let factors = factorize(&n);
         assert_eq!(factors.len(), 1);
+    }
+}
+
+/// Verification wrappers around private items (feature `verif-hooks` only).
+#[cfg(feature = "verif-hooks")]
+pub mod verif {
+    use super::*;
+    pub type P3 = (BigInt, BigInt, BigInt);
+    fn pt(p: &P3) -> Point {
+        Point {
+            x: p.0.clone(),
+            y: p.1.clone(),
+            z: p.2.clone(),
+        }
+    }
+    fn tup(p: Point) -> P3 {
+        (p.x, p.y, p.z)
+    }
+    pub fn many_simplify(pts: &[P3], n: &BigInt) -> Result<Vec<P3>, BigInt> {
+        let pts: Vec<Point> = pts.iter().map(pt).collect();
+        Point::many_simplify(&pts, n).map(|v| v.into_iter().map(tup).collect())
+    }
+    pub fn many_adds(pts: &[(P3, P3, BigInt)], n: &BigInt) -> Result<Vec<P3>, BigInt> {
+        let v: Vec<(Point, Point, Ell)> = pts
+            .iter()
+            .map(|(p, q, a)| {
+                (
+                    pt(p),
+                    pt(q),
+                    Ell {
+                        a: a.clone(),
+                        n: n.clone(),
+                    },
+                )
+            })
+            .collect();
+        Point::many_adds(&v).map(|v| v.into_iter().map(tup).collect())
+    }
+    pub fn oneshot(pts: &[(P3, BigInt)], n: &BigInt, b1: u64, b2: u64) -> Result<(), BigInt> {
+        let points: Vec<Point> = pts.iter().map(|(p, _)| pt(p)).collect();
+        let curves: Vec<Ell> = pts
+            .iter()
+            .map(|(_, a)| Ell {
+                a: a.clone(),
+                n: n.clone(),
+            })
+            .collect();
+        ecm_oneshot_parallel(points, curves, b1, b2)
     }
 }
